@@ -84,6 +84,9 @@ fn go<T: Serialize + DeserializeOwned + PartialEq + Debug>(j: &Value) -> Value {
 }
 
 #[derive(Debug, Clone, PartialEq, Serialize, Deserialize)]
+struct UnitS;
+
+#[derive(Debug, Clone, PartialEq, Serialize, Deserialize)]
 struct FloatPair {
     x: f32,
     y: f64,
@@ -152,6 +155,13 @@ fn dispatch(ty: &str, j: &Value) -> Value {
         "Shape" => go::<Shape>(j),
         "VecShape" => go::<Vec<Shape>>(j),
         "OptPlain" => go::<Option<Plain>>(j),
+        "MapAtomish" => go::<BTreeMap<String, String>>(j),
+        "VecAtomish" => go::<Vec<String>>(j),
+        "UnitStruct" => rt(&UnitS),
+        "BigStr" => go::<String>(j),
+        "BigBytes" => go::<Vec<u8>>(j),
+        "TupI64I64" => go::<(i64, i64)>(j),
+        "ArrI64x2" => go::<[i64; 2]>(j),
         "OptVecI64" => go::<Option<Vec<i64>>>(j),
         "OptVecStr" => go::<Option<Vec<String>>>(j),
         "OptVecU8" => go::<Option<Vec<u8>>>(j),
